@@ -172,6 +172,17 @@ def run(rep, ctx):
                            'implementation_output': dc.impl_json(r), 'listing_order_observed': dc.listing_json(r),
                            'model_function': 'Dir.analyze_dir', 'rust_function': 'analyzer::%s::analyze_dir' % r.cat}, no_input=not spec)
             found = found or spec
+        # the position of a file in the tree must not decide whether the run survives it: the real binary on a deeply nested
+        # (but analysable) file at the top of the tree and two directories below it
+        if not found:
+            from checks import c03
+            near = [c for n_, c in pool if n_ == 'shift'][0]
+            dinfo = c03.deep_pair_failure(hz, oracle, near, rng, vlib.build_solstat_bin())
+            rep.coverage['deep_file_pair'] = 'run' if dinfo is None else 'failed'
+            if dinfo is not None:
+                found = True
+                rep.violation('solstat on a tree with a deeply nested file two directories below the root: exit %s; %s' % (dinfo['exit'], dinfo['note']),
+                              {'kind': 'S', 'input': dinfo, 'theorem': 'verdict_independent (position in the tree)', 'how': 'solstat --path <tree> in an empty cwd'})
         # runtime part: 16 threads
         pd = os.path.join(dc.FSROOT, 'threads')
         os.makedirs(pd)
